@@ -905,3 +905,36 @@ def facts_for_expr(g, facts, node):
     if any(x is node for r in roots for x in ast.walk(r)):
       out = facts[cn.id] if out is None else (out & facts[cn.id])
   return out if out is not None else frozenset()
+
+
+def positional_args(ix, call):
+  """Arguments of `call` in positional order whatever the spelling (keywords mapped through the callee's
+  parameter list / NamedTuple field list).  None when the callee is unknown or the call uses * / **."""
+  if any(isinstance(a, ast.Starred) for a in call.args) or any(k.arg is None for k in call.keywords):
+    return None
+  if not call.keywords:
+    return list(call.args)
+  name = u(call.func).rsplit('.', 1)[-1]
+  fields = None
+  for q, d in ix.by_qual.items():
+    if q.rsplit('.', 1)[-1] != name:
+      continue
+    if hasattr(d, 'params'):
+      fields = [p for p in d.params if p not in ('self', 'cls')]
+    elif hasattr(d, 'node') and isinstance(d.node, ast.ClassDef):
+      init = [m for m in d.node.body if isinstance(m, ast.FunctionDef) and m.name == '__init__']
+      if init:
+        fields = [a.arg for a in init[0].args.args[1:]]
+      else:
+        fields = [st.target.id for st in d.node.body if isinstance(st, ast.AnnAssign) and isinstance(st.target, ast.Name)]
+    break
+  if not fields:
+    return None
+  out = list(call.args) + [None] * (len(fields) - len(call.args))
+  for k in call.keywords:
+    if k.arg not in fields or fields.index(k.arg) < len(call.args):
+      return None
+    out[fields.index(k.arg)] = k.value
+  while out and out[-1] is None:
+    out.pop()
+  return out if all(x is not None for x in out) else None
